@@ -15,7 +15,7 @@ FORMAT_RULES = "LT01,LT02,LT03,LT04,LT05,LT06,LT07,LT08,LT09,LT10,LT11,LT12,LT13
 
 
 def run(ctx, coq_ok):
-    js = fixjobs.jobs(ctx, ["layout", "core", "all", FORMAT_RULES], ("relex",))
+    js = fixjobs.jobs(ctx, ["layout", "core", "all", FORMAT_RULES, "convention", "structure", "CV11,CP01", "ambiguous,aliasing,references"], ("relex",))
     nchanged = 0
     for (d, tpl, style, label, src, rules, extra, want), st, res in corpus.pmap("harness.fixcheck", "fix_case", js):
         if st != "ok":
@@ -37,7 +37,7 @@ def run(ctx, coq_ok):
             i = next((k for k in range(min(len(a), len(b))) if a[k] != b[k]), min(len(a), len(b)))
             glued = i < len(b) and b[i].startswith("".join(a[i:i + 2])) and len(a[i:i + 2]) == 2
             ctx.violation("relex-boundaries", "fixed tree has tokens %r but the fixed text lexes to %r [%s, rules %s]" % (a[i:i + 3], b[i:i + 2], d, rules[:12]),
-                          {"input": inp, "fixed": res["fixed"]}, attrs={"glued": glued, "pair": "".join(a[i:i + 2])[:2] if glued else None, "changed": changed})
+                          {"input": inp, "fixed": res["fixed"]}, attrs={"glued": glued, "pair": "".join(a[i:i + 2])[:2] if glued else None, "changed": changed, "lt01": "LT01" in res["codes0"]})
             continue
         orig_kinds = set(tuple(x) for x in res.get("orig_lex", []))   # context-dependent matchers: the token had this kind before the fix too
         for k, ((raw, _t), alone, (_r2, t2)) in enumerate(zip(res["tree_tokens"], res["alone_types"], res["relex"])):
